@@ -539,6 +539,23 @@ fn c06_c13(rep: &mut Report, which: &str) {
                 oracle_fetch(&arch, &sc, &m, &obs, &mut agg);
             } else {
                 oracle_writes(&arch, &sc, &m, &obs, &mut agg);
+                // the write discipline must survive disturbed reads of the prior output: each of the first reads of an
+                // in-place update delivered one byte at a time once, or cut short and followed by a transient
+                // Interrupted error; a clone that still succeeds is judged by the same oracle
+                if sc.seed_output && sc.prior.is_some() && !m.in_place.is_empty() || (sc.seed_output && sc.prior.is_some() && agg.get("scenarios") % 7 == 0) {
+                    let nreads = obs.log.iter().filter(|o| matches!(o, Op::Read { .. })).count();
+                    for r in 0..nreads.min(12) {
+                        for fault in [Fault::ShortRead { n: r, t: 1 }, Fault::InterruptedRead { n: r, t: 1 }] {
+                            let mut sc2 = sc.clone();
+                            sc2.fault = fault;
+                            let obs2 = run_scenario(&arch, &sc2);
+                            agg.add("scenarios_with_disturbed_reads", 1);
+                            if matches!(obs2.outcome, Outcome::Ok) {
+                                oracle_writes(&arch, &sc2, &m, &obs2, &mut agg);
+                            }
+                        }
+                    }
+                }
             }
             if !m.in_place.is_empty() || m.fetch.len() < arch.descs.len() {
                 agg.add("scenarios_with_reuse", 1);
